@@ -55,7 +55,7 @@ Theorem lib_derivation_is_bip32 : forall p x,
 Proof. exact lib_derive_private_is_spec. Qed.
 
 Theorem lib_public_derivation_is_bip32 : forall p x,
-  path_ok p -> Forall (fun e => snd e = false) p -> x_priv x = None ->
+  path_ok p -> x_priv x = None ->
   derive_with lib_subkey x p = spec_derive_pub x p.
 Proof. exact lib_derive_public_is_spec. Qed.
 
